@@ -518,8 +518,36 @@ func (t *Termer) path(v ssa.Value) string {
 // load renders *addr. Loads from local allocs are forwarded to the set of
 // values stored there (flow-insensitive within the function).
 func (t *Termer) load(addr ssa.Value) string {
+	if fv, ok := addr.(*ssa.FreeVar); ok {
+		// captured variable: resolve to the value stored in the parent's cell
+		fn := fv.Parent()
+		if par := fn.Parent(); par != nil {
+			idx := -1
+			for i, x := range fn.FreeVars {
+				if x == fv {
+					idx = i
+				}
+			}
+			for _, b := range par.Blocks {
+				for _, in := range b.Instrs {
+					if mc, ok := in.(*ssa.MakeClosure); ok && mc.Fn == fn && idx >= 0 && idx < len(mc.Bindings) {
+						if a, ok := mc.Bindings[idx].(*ssa.Alloc); ok {
+							pt := NewTermer(par)
+							vals := pt.storedAt(a, nil)
+							if len(vals) == 1 {
+								return hat(vals[0])
+							}
+						}
+						if fv2, ok := mc.Bindings[idx].(*ssa.FreeVar); ok {
+							return hat(NewTermer(par).load(fv2))
+						}
+					}
+				}
+			}
+		}
+	}
 	root, fpath := allocRoot(addr)
-	if root != nil && !escapes(root) {
+	if root != nil && !escapesBeyondClosures(root) {
 		vals := t.storedAt(root, fpath)
 		if len(vals) == 1 {
 			return vals[0]
@@ -575,6 +603,71 @@ func escapes(a *ssa.Alloc) bool {
 			case *ssa.FieldAddr:
 				if depth > 4 || chk(u, depth+1) {
 					return true
+				}
+			case *ssa.DebugRef:
+			default:
+				return true
+			}
+		}
+		return false
+	}
+	return chk(a, 0)
+}
+
+// hat lifts a parent-frame term into the closure frame: $k -> ^$k.
+func hat(s string) string {
+	var b strings.Builder
+	for i := 0; i < len(s); i++ {
+		if s[i] == '$' && (i == 0 || s[i-1] != '^') {
+			b.WriteByte('^')
+		}
+		b.WriteByte(s[i])
+	}
+	return b.String()
+}
+
+// escapesBeyondClosures: like escapes, but capture by a closure is allowed
+// (closures in this code base read captured parameters, they do not rebind them).
+func escapesBeyondClosures(a *ssa.Alloc) bool {
+	var chk func(v ssa.Value, depth int) bool
+	chk = func(v ssa.Value, depth int) bool {
+		refs := v.Referrers()
+		if refs == nil {
+			return false
+		}
+		for _, r := range *refs {
+			switch u := r.(type) {
+			case *ssa.Store:
+				if u.Val == v {
+					return true
+				}
+			case *ssa.UnOp:
+				if u.Op != token.MUL {
+					return true
+				}
+			case *ssa.FieldAddr:
+				if depth > 4 || chk(u, depth+1) {
+					return true
+				}
+			case *ssa.MakeClosure:
+				if depth > 0 {
+					return true
+				}
+				// the closure must not store into the captured cell
+				cf := u.Fn.(*ssa.Function)
+				for i, bnd := range u.Bindings {
+					if bnd == v && i < len(cf.FreeVars) {
+						if fr := cf.FreeVars[i].Referrers(); fr != nil {
+							for _, x := range *fr {
+								if st, ok := x.(*ssa.Store); ok && st.Addr == cf.FreeVars[i] {
+									return true
+								}
+								if _, ok := x.(*ssa.MakeClosure); ok {
+									return true
+								}
+							}
+						}
+					}
 				}
 			case *ssa.DebugRef:
 			default:
